@@ -301,6 +301,9 @@ def run(ctx):
         programs.append(("iface/%d" % i, ifacegen.generate(rng.fork("if%d" % i), i)[0]))
     for i in range(ctx.scale(60, 1500)):
         programs.append(("typed/%d" % i, wgslgen.generate(rng.fork("ty%d" % i), {"atomics": i % 3 == 0})[1]))
+    # statement forms with inlined operator operands (atomic read-modify-write / store / load with computed index and value)
+    import opforms
+    programs += [("opform/" + n, src) for n, src in opforms.programs()]
     results = compile_all(tools, programs)
     accepted = []
     rejected = {}
